@@ -20,7 +20,12 @@ EXPLANATION = (
     "keys that trial class reads (KEYS-1). options.bin: every options[k] read by the driver / set-up has a "
     "default assigned by _prep_afqmc. ene_err.txt: written and read as (energy, error). BIND-1: the trial, "
     "propagator, sampler and Hamiltonian constructors and the driver calls in mpi_jax bind; each documented "
-    "value of options['trial'] and options['walker_type'] has a branch that binds trial / prop."
+    "value of options['trial'] and options['walker_type'] has a branch that binds trial / prop. "
+    "Def-use rules on prep_afqmc (value graph): hcore_mod = hcore - v0(chol written), nmo is the "
+    "dimension of the hcore written, with a frozen core nelec / enuc / chol come from the same "
+    "active-space object as hcore, and the QR sign fix of the trial orbitals scales columns of Q by "
+    "sign(diag R) of the same factorisation. Amplitude arrays are checked by provenance (cc.t1[s], "
+    "cc.t2[k]). "
 )
 NOT_DECIDED = (
     "everything numerical: HF / FCI / CC energies, the frozen-core effective Hamiltonian, amplitude "
